@@ -1,35 +1,380 @@
+/-
+  Proofs/Select.lean — proofs for C05 (best candidate per query, filterBestPerQuery, execute modes).
+  Helper lemmas live in `Coma.Proofs.Select`; the five theorems used by Props/C05.lean in `Coma.Proofs`.
+-/
 import Props.Defs
-namespace Coma.Proofs
+import Proofs.SortLemmas
+import Proofs.PairingOrder
+namespace Coma.Proofs.Select
 open Coma Coma.Spec
+
+/-- head of a stable sort = first minimal-key element of the input -/
+theorem isort_head_split {α} (key : α → Int) (l : List α) (m : α) (rest : List α)
+    (h : isort key l = m :: rest) :
+    ∃ l1 l2, l = l1 ++ m :: l2 ∧ (∀ x ∈ l1, key m < key x) ∧ (∀ x ∈ l2, key m ≤ key x) := by
+  induction l generalizing m rest with
+  | nil => simp [isort] at h
+  | cons x xs ih =>
+    simp only [isort] at h
+    cases hs : isort key xs with
+    | nil =>
+      have hl := isort_length key xs
+      rw [hs] at hl
+      have hx : xs = [] := List.eq_nil_of_length_eq_zero hl.symm
+      subst hx
+      rw [hs] at h
+      simp only [insertByKey, List.cons.injEq] at h
+      obtain ⟨rfl, _⟩ := h
+      exact ⟨[], [], rfl, by simp, by simp⟩
+    | cons hd tl =>
+      obtain ⟨a1, a2, hxs, h1, h2⟩ := ih hd tl hs
+      rw [hs] at h
+      simp only [insertByKey] at h
+      split at h
+      · rename_i hle
+        simp only [List.cons.injEq] at h
+        obtain ⟨rfl, _⟩ := h
+        refine ⟨[], xs, rfl, by simp, ?_⟩
+        intro y hy
+        rw [hxs] at hy
+        rcases List.mem_append.1 hy with hy | hy
+        · have := h1 y hy; omega
+        · rcases List.mem_cons.1 hy with rfl | hy
+          · exact hle
+          · have := h2 y hy; omega
+      · rename_i hle
+        simp only [List.cons.injEq] at h
+        obtain ⟨rfl, _⟩ := h
+        refine ⟨x :: a1, a2, by rw [hxs]; rfl, ?_, h2⟩
+        intro y hy
+        rcases List.mem_cons.1 hy with rfl | hy
+        · omega
+        · exact h1 y hy
+
+abbrev qid : Row → Int := fun r => r.queryId
+abbrev nconf : Row → Int := fun r => - r.confidence
+
+theorem fbq_eq (rows : List Row) :
+    filterBestPerQuery rows = (groupAdj qid (isort qid (isort nconf rows))).filterMap List.head? := rfl
+
+/-- heads of groups with strictly increasing keys have strictly increasing keys -/
+theorem heads_strict {α} (key : α → Int) (G : List (List α))
+    (h : G.Pairwise (fun g g' => ∀ a ∈ g, ∀ b ∈ g', key a < key b)) :
+    ((G.filterMap List.head?).map key).Pairwise (· < ·) := by
+  rw [List.pairwise_map]
+  refine List.Pairwise.filterMap _ ?_ h
+  intro g g' hgg b hb b' hb'
+  exact hgg b (List.mem_of_mem_head? hb) b' (List.mem_of_mem_head? hb')
+
+theorem fbq_strict (rows : List Row) :
+    StrictAscending ((filterBestPerQuery rows).map (·.queryId)) := by
+  rw [fbq_eq]
+  exact heads_strict qid _ (groupAdj_sorted qid _ (isort_sorted qid _))
+
+theorem fbq_mem (rows : List Row) : ∀ r ∈ filterBestPerQuery rows, r ∈ rows := by
+  intro r hr
+  rw [fbq_eq, List.mem_filterMap] at hr
+  obtain ⟨g, hg, hh⟩ := hr
+  have := mem_of_mem_groupAdj qid _ g r hg (List.mem_of_mem_head? hh)
+  rw [mem_isort, mem_isort] at this
+  exact this
+
+theorem fbq_best (rows : List Row) :
+    ∀ x ∈ rows, ∃ r ∈ filterBestPerQuery rows, r.queryId = x.queryId ∧ x.confidence ≤ r.confidence := by
+  intro x hx
+  have hxT : x ∈ isort nconf rows := (mem_isort _ _ _).2 hx
+  have hxS : x ∈ isort qid (isort nconf rows) := (mem_isort _ _ _).2 hxT
+  have hg := (PO.mem_groupAdj_sorted qid (PO.isort_sorted qid (isort nconf rows))
+      ((isort qid (isort nconf rows)).filter (fun y => decide (qid y = qid x)))).2 ⟨x, hxS, rfl⟩
+  rw [PO.filter_isort] at hg
+  have hxg : x ∈ (isort nconf rows).filter (fun y => decide (qid y = qid x)) := by
+    rw [List.mem_filter]; exact ⟨hxT, by simp⟩
+  have hpw : ((isort nconf rows).filter (fun y => decide (qid y = qid x))).Pairwise
+      (fun a b => nconf a ≤ nconf b) :=
+    (PO.isort_sorted nconf rows).sublist List.filter_sublist
+  cases hgl : (isort nconf rows).filter (fun y => decide (qid y = qid x)) with
+  | nil => rw [hgl] at hxg; cases hxg
+  | cons hd tl =>
+    rw [hgl] at hg hxg hpw
+    have hhd : hd ∈ (isort nconf rows).filter (fun y => decide (qid y = qid x)) := by
+      rw [hgl]; exact List.mem_cons_self
+    rw [List.mem_filter] at hhd
+    refine ⟨hd, ?_, by simpa using hhd.2, ?_⟩
+    · rw [fbq_eq, List.mem_filterMap]
+      exact ⟨_, hg, rfl⟩
+    · rcases List.mem_cons.1 hxg with rfl | hxt
+      · exact Int.le_refl _
+      · have := (List.pairwise_cons.1 hpw).1 x hxt
+        simp only [nconf] at this
+        omega
+
+/-- two permutations of each other, one strictly key-sorted, the other key-sorted, are equal -/
+theorem eq_of_perm_sorted {α} (key : α → Int) : ∀ (R P : List α), P.Perm R →
+    R.Pairwise (fun a b => key a < key b) → P.Pairwise (fun a b => key a ≤ key b) → P = R
+  | [], P, hp, _, _ => hp.eq_nil
+  | a :: R', [], hp, _, _ => by have := hp.length_eq; simp at this
+  | a :: R', b :: P', hp, hR, hP => by
+    have hb : b ∈ a :: R' := hp.mem_iff.1 List.mem_cons_self
+    have ha : a ∈ b :: P' := hp.mem_iff.2 List.mem_cons_self
+    rw [List.pairwise_cons] at hR hP
+    have hab : b = a := by
+      rcases List.mem_cons.1 hb with h | h
+      · exact h
+      · rcases List.mem_cons.1 ha with h' | h'
+        · exact h'.symm
+        · have := hR.1 b h; have := hP.1 a h'; omega
+    subst hab
+    rw [eq_of_perm_sorted key R' P' (List.Perm.cons_inv hp) hR.2 hP.2]
+
+theorem groupAdj_strict {α} (key : α → Int) (R : List α)
+    (h : R.Pairwise (fun a b => key a < key b)) : groupAdj key R = R.map (fun x => [x]) := by
+  induction R with
+  | nil => rfl
+  | cons x xs ih =>
+    rw [List.pairwise_cons] at h
+    rw [groupAdj_cons, ih h.2]
+    cases xs with
+    | nil => rfl
+    | cons y ys =>
+      have := h.1 y List.mem_cons_self
+      have hne : key x ≠ key y := by omega
+      simp [hne]
+
+theorem heads_singletons {α} (l : List α) : l.filterMap (List.head? ∘ fun x => [x]) = l := by
+  induction l with
+  | nil => rfl
+  | cons a as ih => simp [ih]
+
+theorem fbq_fixed (R : List Row) (h : StrictAscending (R.map (·.queryId))) :
+    filterBestPerQuery R = R := by
+  have hR : R.Pairwise (fun a b => qid a < qid b) := by
+    unfold StrictAscending at h; rw [List.pairwise_map] at h; exact h
+  have hperm : (isort qid (isort nconf R)).Perm R := (isort_perm _ _).trans (isort_perm _ _)
+  have heq := eq_of_perm_sorted qid R _ hperm hR (PO.isort_sorted qid _)
+  rw [fbq_eq, heq, groupAdj_strict qid R hR, List.filterMap_map]
+  exact heads_singletons R
+                    
+
+theorem joinRows_qid (P : Params) (a b r : Row) (h : joinRows P a b = .ok (some r)) :
+    r.queryId = a.queryId := by
+  unfold joinRows at h
+  split at h
+  · simp only [bind, Except.bind, pure, Except.pure] at h
+    split at h <;>
+    · split at h
+      · cases h
+      · injection h with h
+        split at h
+        · injection h with h; subst h; rfl
+        · cases h
+  · cases h
+
+theorem resolveGroups_joined (P : Params) (md : Int) (gs : List (List Row)) (j s : List Row)
+    (h : resolveGroups P md gs = .ok (j, s)) :
+    ∀ r ∈ j, ∃ g ∈ gs, ∃ x ∈ g, r.queryId = x.queryId := by
+  induction gs generalizing j s with
+  | nil => 
+    simp only [resolveGroups] at h
+    injection h with h
+    injection h with h1 h2
+    subst h1; intro r hr; cases hr
+  | cons g gs ih =>
+    simp only [resolveGroups, bind, Except.bind, pure, Except.pure] at h
+    cases hrg : resolveGroups P md gs with
+    | error e => rw [hrg] at h; cases h
+    | ok v =>
+      obtain ⟨j', s'⟩ := v
+      rw [hrg] at h
+      simp only at h
+      have ih' := ih j' s' hrg
+      have lift : ∀ r ∈ j', ∃ g' ∈ g :: gs, ∃ x ∈ g', r.queryId = x.queryId := by
+        intro r hr
+        obtain ⟨g', hg', x, hx, hq⟩ := ih' r hr
+        exact ⟨g', List.mem_cons_of_mem _ hg', x, hx, hq⟩
+      split at h
+      · injection h with h; injection h with h1 h2; subst h1; exact lift
+      · injection h with h; injection h with h1 h2; subst h1; exact lift
+      · split at h
+        · split at h
+          · cases h
+          · split at h
+            · rename_i x y rest _ _ _ r0 hjr
+              injection h with h; injection h with h1 h2; subst h1
+              intro r hr
+              rcases List.mem_cons.1 hr with rfl | hr
+              · exact ⟨_, List.mem_cons_self, x, List.mem_cons_self, joinRows_qid P x y r hjr⟩
+              · exact lift r hr
+            · injection h with h; injection h with h1 h2; subst h1; exact lift
+        · injection h with h; injection h with h1 h2; subst h1; exact lift
+
+theorem resolveRows_joined (P : Params) (md : Int) (rows : List Row) (js : List Row × List Row)
+    (h : resolveRows P md rows = .ok js) :
+    ∀ r ∈ js.1, ∃ x ∈ rows, r.queryId = x.queryId := by
+  obtain ⟨j, s⟩ := js
+  unfold resolveRows at h
+  intro r hr
+  obtain ⟨g, hg, x, hx, hq⟩ := resolveGroups_joined P md _ j s h r hr
+  refine ⟨x, ?_, hq⟩
+  rw [List.mem_flatMap] at hg
+  obtain ⟨g0, hg0, hg⟩ := hg
+  have h1 := mem_of_mem_groupAdj _ _ g x hg hx
+  rw [mem_isort] at h1
+  have h2 := mem_of_mem_groupAdj _ _ g0 x hg0 h1
+  rw [mem_isort] at h2
+  exact h2
+
+
+/-- the ids of the filtered list are exactly the ids of the input -/
+theorem fbq_ids (L : List Row) (q : Int) :
+    q ∈ (filterBestPerQuery L).map (·.queryId) ↔ q ∈ L.map (·.queryId) := by
+  simp only [List.mem_map]
+  constructor
+  · rintro ⟨r, hr, rfl⟩
+    exact ⟨r, fbq_mem L r hr, rfl⟩
+  · rintro ⟨x, hx, rfl⟩
+    obtain ⟨r, hr, hq, _⟩ := fbq_best L x hx
+    exact ⟨r, hr, hq⟩
+
+/-- `execute` in mode `best`, unfolded -/
+theorem execute_best_eq (cfg : Cfg) (refs : List OMap) (t : SeedTable) (qs : List OMap) (it : Int)
+    (first second : List Row)
+    (h1 : executeSingle cfg refs t qs it = .ok first) (h2 : secondPass cfg refs t qs first it = .ok second) :
+    execute cfg .best refs t qs it =
+      match resolveRows cfg.P cfg.maxDifference
+          (filterBestPerQuery (first ++ second) ++ filterBestPerQuery second) with
+      | .error e => .error e
+      | .ok js => .ok { main := filterBestPerQuery (isort (fun r => r.queryId)
+            (js.1 ++ (filterBestPerQuery (first ++ second)).filter
+              (fun r => !(js.1.map (·.queryId)).contains r.queryId))) } := by
+  unfold execute
+  simp only [bind, Except.bind, pure, Except.pure, h1, h2, reduceCtorEq, if_false, if_true]
+  cases resolveRows cfg.P cfg.maxDifference
+          (filterBestPerQuery (first ++ second) ++ filterBestPerQuery second) <;> rfl
+
+end Coma.Proofs.Select
+
+namespace Coma.Proofs
+open Coma Coma.Spec Coma.Proofs.Select
 
 theorem bestRow_spec (rows : List Row) :
     (bestRow rows = none ↔ rows = []) ∧
     ∀ r, bestRow rows = some r →
       ∃ l1 l2, rows = l1 ++ r :: l2 ∧ (∀ x ∈ l1, x.confidence < r.confidence) ∧ (∀ x ∈ l2, x.confidence ≤ r.confidence) := by
-  sorry
+  have hdef : bestRow rows = (isort nconf rows).head? := rfl
+  constructor
+  · rw [hdef, List.head?_eq_none_iff]
+    constructor
+    · intro h
+      have := isort_length nconf rows
+      rw [h] at this
+      exact List.eq_nil_of_length_eq_zero this.symm
+    · rintro rfl; rfl
+  · intro r hr
+    rw [hdef] at hr
+    cases hs : isort nconf rows with
+    | nil => rw [hs] at hr; cases hr
+    | cons m rest =>
+      rw [hs] at hr
+      simp only [List.head?_cons, Option.some.injEq] at hr
+      subst hr
+      obtain ⟨l1, l2, h0, h1, h2⟩ := isort_head_split nconf rows m rest hs
+      refine ⟨l1, l2, h0, ?_, ?_⟩
+      · intro x hx; have := h1 x hx; simp only [nconf] at this; omega
+      · intro x hx; have := h2 x hx; simp only [nconf] at this; omega
 
 theorem filter_spec (rows : List Row) :
     StrictAscending ((filterBestPerQuery rows).map (·.queryId)) ∧
     (∀ r ∈ filterBestPerQuery rows, r ∈ rows) ∧
     (∀ x ∈ rows, ∃ r ∈ filterBestPerQuery rows, r.queryId = x.queryId ∧ x.confidence ≤ r.confidence) ∧
-    filterBestPerQuery (filterBestPerQuery rows) = filterBestPerQuery rows := by
-  sorry
+    filterBestPerQuery (filterBestPerQuery rows) = filterBestPerQuery rows :=
+  ⟨fbq_strict rows, fbq_mem rows, fbq_best rows, fbq_fixed _ (fbq_strict rows)⟩
+
+theorem executeSingle_pairs (cfg : Cfg) (refs : List OMap) (t : SeedTable) (qs : List OMap) (it : Int)
+    (rows : List Row) (h : executeSingle cfg refs t qs it = .ok rows) : ∀ r ∈ rows, r.pairs ≠ [] := by
+  unfold executeSingle at h
+  simp only [bind, Except.bind, pure, Except.pure] at h
+  split at h
+  · cases h
+  · injection h with h
+    subst h
+    intro r hr
+    rw [List.mem_filterMap] at hr
+    obtain ⟨a, _, ha⟩ := hr
+    split at ha
+    · split at ha
+      · cases ha
+      · rename_i hne
+        injection ha with ha
+        subst ha
+        intro hp
+        exact hne (by rw [hp]; rfl)
+    · cases ha
 
 theorem execute_files_unique (cfg : Cfg) (mode : Mode) (refs : List OMap) (t : SeedTable) (qs : List OMap) (it : Int)
     (out : Output) (h : execute cfg mode refs t qs it = .ok out) :
     StrictAscending (out.main.map (·.queryId)) ∧
     ((mode = .separate ∨ mode = .all) → ∀ f ∈ out.extra, StrictAscending (f.2.map (·.queryId))) := by
-  sorry
+  unfold execute at h
+  simp only [bind, Except.bind, pure, Except.pure] at h
+  split at h
+  · cases h
+  · split at h
+    · injection h with h; subst h
+      rename_i hm
+      refine ⟨fbq_strict _, ?_⟩
+      intro hm'; rw [hm] at hm'; rcases hm' with h | h <;> cases h
+    · split at h
+      · cases h
+      · split at h
+        · injection h with h; subst h
+          refine ⟨fbq_strict _, ?_⟩
+          intro _ f hf
+          simp only [List.mem_singleton] at hf
+          subst hf
+          exact fbq_strict _
+        · split at h
+          · cases h
+          · split at h
+            · injection h with h; subst h
+              exact ⟨fbq_strict _, fun hm => by rcases hm with h | h <;> cases h⟩
+            · injection h with h; subst h
+              exact ⟨fbq_strict _, fun hm => by rcases hm with h | h <;> cases h⟩
+            · injection h with h; subst h
+              refine ⟨fbq_strict _, ?_⟩
+              intro _ f hf
+              simp only [List.mem_cons, List.not_mem_nil, or_false] at hf
+              rcases hf with rfl | rfl <;> exact fbq_strict _
 
 theorem execute_best_ids (cfg : Cfg) (refs : List OMap) (t : SeedTable) (qs : List OMap) (it : Int)
     (first second : List Row) (out : Output)
     (h1 : executeSingle cfg refs t qs it = .ok first) (h2 : secondPass cfg refs t qs first it = .ok second)
     (h : execute cfg .best refs t qs it = .ok out) :
     ∀ q, q ∈ out.main.map (·.queryId) ↔ q ∈ (first ++ second).map (·.queryId) := by
-  sorry
-
-theorem executeSingle_pairs (cfg : Cfg) (refs : List OMap) (t : SeedTable) (qs : List OMap) (it : Int)
-    (rows : List Row) (h : executeSingle cfg refs t qs it = .ok rows) : ∀ r ∈ rows, r.pairs ≠ [] := by
-  sorry
+  rw [execute_best_eq cfg refs t qs it first second h1 h2] at h
+  split at h
+  · cases h
+  · rename_i js hres
+    injection h with h
+    subst h
+    have hj := resolveRows_joined _ _ _ js hres
+    intro q
+    show q ∈ (filterBestPerQuery _).map (·.queryId) ↔ _
+    rw [fbq_ids]
+    simp only [List.mem_map, mem_isort, List.mem_append, List.mem_filter]
+    constructor
+    · rintro ⟨r, hr, rfl⟩
+      rcases hr with hr | ⟨hr, _⟩
+      · obtain ⟨x, hx, hq⟩ := hj r hr
+        rcases List.mem_append.1 hx with hx | hx
+        · exact ⟨x, List.mem_append.1 (fbq_mem _ x hx), hq.symm⟩
+        · exact ⟨x, Or.inr (fbq_mem _ x hx), hq.symm⟩
+      · exact ⟨r, List.mem_append.1 (fbq_mem _ r hr), rfl⟩
+    · rintro ⟨x, hx, rfl⟩
+      obtain ⟨r, hr, hq, _⟩ := fbq_best (first ++ second) x (List.mem_append.2 hx)
+      by_cases hc : (js.1.map (·.queryId)).contains r.queryId = true
+      · rw [List.contains_iff_mem, List.mem_map] at hc
+        obtain ⟨r', hr', hq'⟩ := hc
+        exact ⟨r', Or.inl hr', hq'.trans hq⟩
+      · exact ⟨r, Or.inr ⟨hr, by simpa using hc⟩, hq⟩
 
 end Coma.Proofs
